@@ -267,10 +267,15 @@ def finish(rep, level, explanation, assumptions, trusted_base):
     rp_dir = os.path.join(VERIF, "reports")
     os.makedirs(rp_dir, exist_ok=True)
 
-    if broken:
+    if broken and not unlisted:
         for n, m, fl in broken:
             print("ANALYSIS-BROKEN property=%s rule-instance count %s = %d below floor %d" % (prop, n, m, fl))
         return 2
+    # a rule lost instances *and* another rule reports a violation in what is left: the violation is real and is
+    # reported; the lost instances are noted (they usually are the other face of the same change)
+    for n, m, fl in broken:
+        print("  note: rule-instance count %s = %d below floor %d" % (n, m, fl))
+        rep.notes.append("rule-instance count %s = %d below floor %d" % (n, m, fl))
 
     for o in listed:
         k = kmap[o.ident()]
